@@ -173,7 +173,8 @@ def make_dataset(ctx, rng, idx):
         df["p"] = np.array([rng.randrange(0, 3) for _ in range(n)], dtype="int64")
         parts = ["p"]
         if kind == "hive-part2":
-            df["q"] = pd.Series([rng.choice(["x", "y"]) for _ in range(n)], dtype=object)
+            # text keys of more than one character (a listed value must be typed element by element)
+            df["q"] = pd.Series([rng.choice(["x", "yy", "k2"]) for _ in range(n)], dtype=object)
             parts = ["p", "q"]
     offs = rng.choice([None, 7, 4, [0, 3, 11] if n > 11 else [0], 1000])
     stats = rng.choice([True, True, "auto", ["i"], ["i", "f", "s", "n"], False])
